@@ -57,7 +57,7 @@ def expected(s):
     ov = []
     ran = []
     # instantiate, exec go -> (submessage) exec noop -> reply, sudo, migrate
-    for k, h in (("instantiate", "instantiate"), ("exec", "go"), ("exec", "noop"), ("reply", "on_reply#7"), ("sudo", "su"), ("migrate", "mig")):
+    for k, h in (("instantiate", "instantiate"), ("exec", "go"), ("exec", "noop"), ("reply", "on_reply2#7"), ("sudo", "su"), ("migrate", "mig")):
         if k in s:
             ov.append(k if k != "reply" else "reply#7")
             if k != "reply":
